@@ -33,7 +33,7 @@ impl Socket for Stream {
     fn split(self) -> (Self::ReadHalf, Self::WriteHalf) {
         let (read, write) = self.0.into_split();
 
-        (ReadHalf(read), WriteHalf(write))
+        (ReadHalf(read), WriteHalf(write, 0))
     }
 }
 
@@ -55,16 +55,26 @@ impl socket::ReadHalf for ReadHalf {
 
 /// The [`WriteHalf`] implementation using Unix Domain Sockets.
 #[derive(Debug)]
-pub struct WriteHalf(unix::OwnedWriteHalf);
+pub struct WriteHalf(
+    unix::OwnedWriteHalf,
+    // How much of the buffer being written is already out. This is kept here and not in the
+    // future, so that a write that got cancelled half way is resumed (and not restarted) when the
+    // connection tries again.
+    usize,
+);
 
 impl socket::WriteHalf for WriteHalf {
     async fn write(&mut self, buf: &[u8]) -> Result<()> {
-        let mut pos = 0;
-
-        while pos < buf.len() {
-            let n = self.0.write(&buf[pos..]).await?;
-            pos += n;
+        while self.1 < buf.len() {
+            match self.0.write(&buf[self.1..]).await {
+                Ok(n) => self.1 += n,
+                Err(e) => {
+                    self.1 = 0;
+                    return Err(e.into());
+                }
+            }
         }
+        self.1 = 0;
 
         Ok(())
     }
